@@ -411,4 +411,14 @@ pub mod vx_export {
         let spliced = crate::AppendOnlyProof { proofs: vec![pa.proofs[0].clone(), pb.proofs[0].clone()], epochs: vec![0, 1] };
         Ok(crate::auditor::audit_verify::<TC>(vec![h0.hash(), a1.hash(), b2.hash()], spliced).await.is_ok())
     }
+
+    /// C05 completeness on the EMPTY tree: does the server's non-membership proof for a label verify against the empty tree's root hash?
+    /// Returns Ok(true) iff the verifier accepts it.
+    pub async fn c05_empty_tree_nonmembership<TC: Configuration>() -> Result<bool, AkdError> {
+        let db = StorageManager::new_no_cache(AsyncInMemoryDatabase::new());
+        let azks = Azks::new::<TC, _>(&db).await?;
+        let root_hash = azks.get_root_hash::<TC, _>(&db).await?;
+        let proof = azks.get_non_membership_proof::<TC, _>(&db, lbl(0x40)).await?;
+        Ok(verify_nonmembership_for_tests_only::<TC>(root_hash, &proof).is_ok())
+    }
 }
